@@ -54,6 +54,13 @@ def gen(rng, tier):
             for cont in ("stack", "heap", "heapval", "locked", "lockedro"):
                 if cont == "stack" or n != 24 or cont in ("heapval", "locked", "lockedro"):
                     cs.append(Case("tryfrom %s %d %s" % (cont, n, hx(p)), cls="container-build/" + cont, expect="ok " + hx(p)))
+    # … and a slice of any OTHER length is refused by every container alike (no padding, no prefix view)
+    for n in (16, 32, 64):
+        for k in sorted({0, 1, n - 1, n + 1, n + 16, 2 * n, 2 * n + 1, 130}):
+            p = rbytes(rng, k)
+            for cont in ("stack", "heap", "locked", "lockedro"):
+                cs.append(Case("tryfrom %s %d %s" % (cont, n, hx(p)), cls="container-build-wrong-length/" + cont, expect="err",
+                               meta={"why": "a %d-byte %s container built from %d bytes" % (n, cont, k)}))
     # resize and clone behave like Vec's in every resizable container (shrink to a prefix, grow with zeros, clone keeps the bytes)
     for n in (0, 1, 16, 33, 100, 4096, 4097):
         data = rbytes(rng, n)
